@@ -1,8 +1,88 @@
+//! Generator CLI.
+//!
+//!   dx_shape --prop NONE                                   (build warm-up)
+//!   dx_shape gen --seed S --tier T --out DIR --repo /repo --self /verif/engines/dfirx/dx_shape
+//!                [--reuse] [--isolate pkg,pkg] [--failed FILE.json] [--dump]
+//!
+//! `gen` writes the generated cargo workspace (see `emit.rs`). `--reuse` loads DIR/gen.json instead of
+//! regenerating (so that all passes of one check see exactly the same programs); `--isolate` emits the programs
+//! of the named part crates as one crate each (attribution of a rustc failure); `--failed` marks programs that
+//! rustc rejected (they are left out and recorded in the manifest as compile outcomes).
+
+use std::collections::BTreeMap;
+use std::path::PathBuf;
+
+use dx_shape::emit::{Manifest, Paths, write_workspace};
+
 fn main() {
-    let args = vcommon::Args::parse();
-    if args.prop == "NONE" {
-        return;
+    let argv: Vec<String> = std::env::args().collect();
+    if argv.get(1).map(|s| s.as_str()) != Some("gen") {
+        let args = vcommon::Args::parse();
+        if args.prop == "NONE" {
+            return;
+        }
+        eprintln!("dx_shape: use `gen …`; the checks themselves run in the generated binary (see vlib/drv_dxshape.py)");
+        std::process::exit(3);
     }
-    eprintln!("not implemented yet");
-    std::process::exit(3);
+    let mut seed = 1u64;
+    let mut tier = "quick".to_string();
+    let mut out = PathBuf::from("/tmp/dxshape-gen");
+    let mut repo = "/repo".to_string();
+    let mut me = "/verif/engines/dfirx/dx_shape".to_string();
+    let mut reuse = false;
+    let mut isolate: Vec<String> = Vec::new();
+    let mut failed: Option<String> = None;
+    let mut dump = false;
+    let mut it = argv.iter().skip(2);
+    while let Some(a) = it.next() {
+        match a.as_str() {
+            "--seed" => seed = it.next().unwrap().parse().unwrap(),
+            "--tier" => tier = it.next().unwrap().clone(),
+            "--out" => out = PathBuf::from(it.next().unwrap()),
+            "--repo" => repo = it.next().unwrap().clone(),
+            "--self" => me = it.next().unwrap().clone(),
+            "--reuse" => reuse = true,
+            "--isolate" => isolate = it.next().unwrap().split(',').filter(|s| !s.is_empty()).map(|s| s.to_string()).collect(),
+            "--failed" => failed = Some(it.next().unwrap().clone()),
+            "--dump" => dump = true,
+            x => {
+                eprintln!("unknown argument {x}");
+                std::process::exit(3);
+            }
+        }
+    }
+    std::fs::create_dir_all(&out).expect("mkdir out");
+    let gen_json = out.join("gen.json");
+    let mut m: Manifest = if reuse && gen_json.exists() {
+        serde_json::from_str(&std::fs::read_to_string(&gen_json).expect("read gen.json")).expect("parse gen.json")
+    } else {
+        dx_shape::driver::generate(seed, &tier)
+    };
+    if let Some(f) = failed {
+        let map: BTreeMap<String, String> = serde_json::from_str(&std::fs::read_to_string(&f).expect("read failed file")).expect("parse failed file");
+        for (k, v) in map {
+            m.rustc_failed.insert(k, v);
+        }
+    }
+    let txt = serde_json::to_string(&m).unwrap();
+    if std::fs::read_to_string(&gen_json).map(|o| o != txt).unwrap_or(true) {
+        std::fs::write(&gen_json, &txt).expect("write gen.json");
+    }
+    if dump {
+        for (id, f) in &m.fns {
+            println!("// ---- {id}\n{f}");
+        }
+        for r in &m.gen_rejects {
+            eprintln!("REJECT {r}");
+        }
+    }
+    let tag = format!("s{seed}{}", &tier[..1]);
+    let paths = Paths { repo, dx_shape: me };
+    let members = write_workspace(&out, &m, &tag, dx_shape::driver::n_parts(&tier), &paths, &isolate);
+    println!(
+        "{}",
+        serde_json::json!({"t": "gen", "tag": tag, "members": members, "programs": m.compile_ids().len(), "c22_groups": m.c22.len(),
+            "c25": m.c25.len(), "c26": m.c26.len(), "generator_rejects": m.gen_rejects.len(), "rustc_failed": m.rustc_failed.len(),
+            "frontend_rejected_variants": m.c22.iter().map(|g| g.variants.iter().filter(|v| !v.analysis.ok).count()).sum::<usize>()})
+    );
 }
